@@ -73,6 +73,9 @@ package dag
 // depends on nothing but the packs themselves (not on the DAG shape, the merge commits or the reading order):
 // two replicas holding the same packs list them in the same order.
 //@   check [packs-ordered] err == nil ==> (forall k int :: { oppSlice[k] } forall l int :: { oppSlice[l] } 0 <= k && k < l && l < len(oppSlice) ==> !((oppSlice[l].EditTime != oppSlice[k].EditTime) ? oppSlice[l].EditTime < oppSlice[k].EditTime : oppSlice[l].Id() < oppSlice[k].Id()))
+// ... and a history is refused for a clock jump only on a non-merge hop of more than 1,000,000: merge commits are
+// exempt (merging after a long time must not make a valid entity unreadable)
+//@   assert at `fmt.Errorf("lamport clock jumping` [only-non-merge-jumps-refused] len(commit.Parents) <= 1 && opp.EditTime - parentPack.EditTime > 1000000
 //@   check [clock-edge] err == nil ==> (forall k int :: { BFSOrder[k] } 0 <= k && k < len(BFSOrder) ==> (forall j int :: { BFSOrder[k].Parents[j] } 0 <= j && j < len(BFSOrder[k].Parents) ==> (BFSOrder[k].Parents[j] in oppMap) && oppMap[BFSOrder[k].Parents[j]].EditTime < oppMap[BFSOrder[k].Hash].EditTime))
 //@   check [clock-jump] err == nil ==> (forall k int :: { BFSOrder[k] } 0 <= k && k < len(BFSOrder) && len(BFSOrder[k].Parents) <= 1 ==> (forall j int :: { BFSOrder[k].Parents[j] } 0 <= j && j < len(BFSOrder[k].Parents) ==> oppMap[BFSOrder[k].Hash].EditTime - oppMap[BFSOrder[k].Parents[j]].EditTime <= 1000000))
 //@   loop 3
@@ -239,7 +242,7 @@ package dag
 //@   trusted
 //@   purefn
 //@ func read$1
-//@   props C03 C01
+//@   props C03 C01 C04
 //@   modifies nothing
 //@   ensures result == ((oppSlice[i].EditTime != oppSlice[j].EditTime) ? oppSlice[i].EditTime < oppSlice[j].EditTime : oppSlice[i].Id() < oppSlice[j].Id())
 
